@@ -20,7 +20,7 @@ func propC08() *Property {
 	}
 	return &Property{
 		ID:          "C08",
-		Explanation: "Static lock-state, effect and call-graph analysis of the whole program. Decided: (R1) every access to ui.State / ui.Page fields, every call of the output callback and every write of a markup render cache happens with State.m held on every path (lock-state must-dataflow with caller-inherited states resolved over the VTA call graph; go targets and exported entry points start unlocked); (R2) the unlocked reads in the loader goroutines are covered by the in-flight flag protocol; (R3) every Lock is released on every return path except error returns of Subcommand; (R4) no synchronous path re-acquires the non-reentrant mutex; (R5) fan-out goroutines joined by a WaitGroup have pairwise disjoint write sets, Add/Done/Wait are balanced, captured variables of closures made elsewhere and handed over (callbacks stored in fields) counting as cells shared by all invocations; (R6) shared documents, configuration and package-level state are read-only after initialisation; (R7) every go statement is inventoried. (R8) every store into a field of a pub item type (Post, Actor, Activity, Collection, Link, Failure) targets the object that the enclosing constructor has just allocated: items are shared by pages, loader goroutines (outside State.m) and the renderer, which is safe only because nothing writes them after construction. (R9) the in-flight flags of ui.Page pair up: every flag is set right before the goroutine that clears it is started, and that goroutine clears the flag of, and writes fields and feed of, the very page value it was started for (SSA identity through the closure binding), never the page that is current when the load completes. Not decided: liveness under real schedulers, races inside dependencies (lru, singleflight are trusted as internally synchronised), the deliberate lock hold on a failing sub-command.",
+		Explanation: "Static lock-state, effect and call-graph analysis of the whole program. Decided: (R1) every access to ui.State / ui.Page fields, every call of the output callback and every write of a markup render cache happens with State.m held on every path (lock-state must-dataflow with caller-inherited states resolved over the VTA call graph; go targets and exported entry points start unlocked); (R2) the unlocked reads in the loader goroutines are covered by the in-flight flag protocol; (R3) every Lock is released on every return path except error returns of Subcommand; (R4) no synchronous path re-acquires the non-reentrant mutex; (R5) fan-out goroutines joined by a WaitGroup have pairwise disjoint write sets, Add/Done/Wait are balanced, captured variables of closures made elsewhere and handed over (callbacks stored in fields) counting as cells shared by all invocations; (R6) shared documents, configuration and package-level state are read-only after initialisation; (R7) every go statement is inventoried. (R8) every store into a field of a pub item type (Post, Actor, Activity, Collection, Link, Failure) targets the object that the enclosing constructor has just allocated: items are shared by pages, loader goroutines (outside State.m) and the renderer, which is safe only because nothing writes them after construction. (R9) the in-flight flags of ui.Page pair up: every flag is set right before the goroutine that clears it is started, and that goroutine clears the flag of, and writes fields and feed of, the very page value it was started for (SSA identity through the closure binding), never the page that is current when the load completes. (R1, addition) calls of feed.Feed methods from package ui are accesses to UI state: with State.m held. Not decided: liveness under real schedulers, races inside dependencies (lru, singleflight are trusted as internally synchronised), the deliberate lock hold on a failing sub-command.",
 		Assumptions: []string{
 			"go/types, go/ssa and the VTA call graph of x/tools v0.29.0 are sound for the call edges used (no reflection/unsafe in servitor)",
 			"sync.Mutex, sync.WaitGroup, lru.Cache and singleflight.Group behave as documented",
